@@ -75,7 +75,6 @@ HasTemp(r) == \E j \in 1..Len(r.name) : r.name[j].k = "p" /\ IsTempPat(r.name[j]
 Focus(s)   == Len(s) = 3 /\ s[2].id = "#r1" /\
               \/ (HasTemp(s[1]) /\ HasTemp(s[2]) /\ Len(s[1].cons) > 0 /\ Len(s[2].cons) > 0)
               \/ (s[1].sign # s[2].sign /\ s[1].name = s[2].name)
-              \/ (s[1].sign = <<"#r3">> /\ s[2].sign = <<"#r3">> /\ s[1].name # s[2].name)
 Focus2(s)  == Len(s) = 3 /\ s[2].id = "#r2" /\ s[3].name = <<R("#r2"), R("#r1")>> /\ HasTemp(s[1]) /\ Len(s[1].cons) > 0
 Picked == {i \in 1..Count : i % Stride = Offset % Stride}
           \cup (IF Mode \in {"schemas", "checks"}
